@@ -7,7 +7,8 @@ order supplied -- from the object in memory, after `save_as` -> `segread` (eager
 `segread(lazy_frame_retrieval=True)`; the input array must be left untouched; masks the constructor must
 refuse (undescribed label, non-binary stacked integers, floats outside [0, 1] ...) must be refused.
 
-Tie T: T20 (frame-loop guard + carry arithmetic of `Segmentation.__init__`), T4, T12 (read side).
+Tie T: T20 (frame-loop guard, carry arithmetic, flush, pad, admission of max_fractional_value in
+`Segmentation.__init__`), T8 (`_get_unsigned_dtype`: LABELMAP bit depth), T1, T4, T12 (read side).
 Tie C: the model (Model/SegEncode.lean) is run on the same masks:
   L0  model read-back (`roundtrip`) vs the implementation's read-back, ok-vs-refused of the constructor;
   L1  NumberOfFrames, the multiset of (segment, plane, pixels) seen through pydicom's `pixel_array` of the
@@ -25,7 +26,7 @@ from fractions import Fraction
 import numpy as np
 
 PROP = 'C01'
-TARGETS = ['T20', 'T4', 'T12']
+TARGETS = ['T20', 'T8', 'T1', 'T4', 'T12']
 LEAN_MODULES = ['HdVerif.Props.C01']
 MODEL_MODULES = ['HdVerif.Model.SegEncode']
 NAMESPACE = 'HdVerif.C01'
@@ -104,12 +105,22 @@ def gen_case(ctx, idx, stream='case'):
     if c['ts'].startswith('JPEG-LS') and (c['rows'] < 8 or c['cols'] < 8):
         c['rows'], c['cols'] = c['rows'] + 7, c['cols'] + 7       # pyjpegls cannot encode tiny frames
     c['workers'] = 0
-    if c['ts'] not in NATIVE and ctx.tier == 'thorough' and r.random() < 0.12:
+    if c['ts'] not in NATIVE and r.random() < (0.12 if ctx.tier == 'thorough' else 0.04):
         c['workers'] = r.choice([2, 'executor'])
+    elif c['ts'] in NATIVE and r.random() < 0.02:
+        c['workers'] = 'executor'          # has no effect for native syntaxes (a warning), must not change anything
     c['bad'] = None
-    if r.random() < 0.15:
-        c['bad'] = r.choice(['undescribed', 'nonbinary4d', 'float_range', 'float_nonbinary', 'overlap_labelmap',
-                             'channels'])
+    u = r.random()
+    four = c['layout'] == '4d'
+    applicable = [k for k, ok in (
+        ('undescribed', not four and c['dtype'] in ('uint8', 'uint16')),
+        ('nonbinary4d', four and c['dtype'] in ('uint8', 'uint16')),
+        ('float_range', isfloat),
+        ('float_nonbinary', isfloat and c['type'] != 'FRACTIONAL'),
+        ('overlap_labelmap', four and c['type'] == 'LABELMAP' and len(c['segs']) > 1),
+        ('channels', four)) if ok]
+    if u < 0.15 and applicable:
+        c['bad'] = r.choice(applicable)
     c['read_perm_seed'] = r.randrange(1 << 30)
     return c
 
@@ -534,8 +545,92 @@ def run_case(ctx, c, reqs, pending, paths=('memory', 'eager', 'lazy')):
 
 
 # ------------------------------------------------------------------------------------------- helpers (L2)
+def _mask_json(a):
+    """numpy array (P, R, C[, S]) -> the model's JSON form of a Mask"""
+    isfloat = a.dtype.kind == 'f'
+    P = a.shape[0]
+    flat = a.reshape(P, -1, a.shape[-1]) if a.ndim == 4 else a.reshape(P, -1)
+    planes = np.vectorize(_rat, otypes=[object])(flat).tolist() if isfloat else flat.astype(np.int64).tolist()
+    return {'kind': 'float' if isfloat else 'int', 'four': a.ndim == 4, 'planes': planes}
+
+
 def _helpers(ctx, reqs, pending):
-    pass
+    """L2: the two static helpers against `castMask` / `segPlane` on thousands of tiny arrays."""
+    import highdicom as hd
+    from highdicom.seg.sop import Segmentation, _get_unsigned_dtype
+    from highdicom.seg import SegmentationTypeValues as STV
+    cast = getattr(Segmentation, '_check_and_cast_pixel_array', None)
+    segpx = getattr(Segmentation, '_get_segment_pixel_array', None)
+    if cast is None or segpx is None:
+        ctx.note('L2 helpers _check_and_cast_pixel_array / _get_segment_pixel_array not found; skipped')
+        return
+    for idx in range(ctx.n(1500, 30000)):
+        r = ctx.rng('helper', idx)
+        nr = ctx.np_rng('helper/pix', idx)
+        typ = r.choice(['BINARY', 'FRACTIONAL', 'LABELMAP'])
+        nseg = r.choice([1, 1, 2, 3, 4])
+        segs = sorted(r.sample([1, 2, 3, 4, 5, 7, 9, 200, 300, 1000], nseg)) if (typ == 'LABELMAP' and r.random() < 0.6) \
+            else list(range(1, nseg + 1))
+        four = r.random() < 0.5
+        dtname = r.choice(DTYPES)
+        P, n = r.choice([1, 1, 2]), r.choice([1, 2, 3, 4])
+        S = nseg if r.random() < 0.9 else nseg + r.choice([-1, 1])
+        shape = (P, 1, n, S) if four else (P, 1, n)
+        if four and S == 0:
+            continue
+        if dtname.startswith('float'):
+            vals = [0.0, 0.0, 1.0, 1.0, 0.5, 0.25, 0.0009765625, 1.5, -0.125]
+            w = [6, 6, 6, 6, 1, 1, 1, 0.3, 0.3] if typ != 'FRACTIONAL' else [4, 4, 3, 3, 3, 3, 2, 0.3, 0.3]
+            a = nr.choice(vals, size=shape, p=np.array(w) / sum(w))
+        elif dtname == 'bool':
+            a = nr.random(shape) < 0.4
+        else:
+            pool = [0, 0, 0, 1, 1] + (segs if not four else []) + ([2] if r.random() < 0.15 else []) + \
+                   ([max(segs) + 1] if (not four and r.random() < 0.15) else [])
+            pool = [v for v in pool if v < (256 if dtname == 'uint8' else 65536)]
+            a = nr.choice(pool, size=shape)
+        a = a.astype({'bool': np.bool_, 'uint8': np.uint8, 'uint16': np.uint16, 'float32': np.float32,
+                      'float64': np.float64}[dtname])
+        dtype = np.uint8 if typ != 'LABELMAP' else _get_unsigned_dtype(max(segs))
+        case = {'helper': '_check_and_cast_pixel_array', 'idx': idx, 'type': typ, 'segs': segs, 'dtype': dtname,
+                'array': a.tolist(), 'layer': 'L2'}
+        keep = a.copy()
+        try:
+            out, ov = cast(a, np.array(segs), STV[typ], dtype)
+            impl = ('ok', {'mask': _mask_json(np.asarray(out)), 'overlap': ov.value})
+        except Exception as e:  # noqa: BLE001
+            out = None
+            impl = ('err', _err_kind(e))
+        ctx.case(path='helper/cast', outcome=impl[0], type=typ)
+        if not np.array_equal(a, keep):
+            ctx.fail(case, '_check_and_cast_pixel_array modified its input', site='input-mutated')
+        reqs.append(('castMask', dict(_mask_json(keep), segs=segs, type=typ)))
+        pending.append((case, 'helper', impl))
+        if out is None or typ == 'LABELMAP':
+            continue
+        # per-segment plane of the cast array
+        out = np.asarray(out)
+        mfv = r.choice([1, 2, 100, 255])
+        s = r.choice(segs)
+        plane = out[r.randrange(P)]
+        keep2 = plane.copy()
+        case2 = {'helper': '_get_segment_pixel_array', 'idx': idx, 'type': typ, 'segs': segs, 'mfv': mfv, 's': s,
+                 'plane': plane.tolist(), 'dtype': str(plane.dtype), 'layer': 'L2'}
+        try:
+            px = segpx(plane, s, np.array(segs), STV[typ], mfv, np.uint8)
+            impl2 = ('ok', np.asarray(px).astype(np.int64).reshape(-1).tolist())
+        except Exception as e:  # noqa: BLE001
+            impl2 = ('err', _err_kind(e))
+        ctx.case(path='helper/segpx', outcome=impl2[0], type=typ)
+        if not np.array_equal(plane, keep2):
+            ctx.fail(case2, '_get_segment_pixel_array modified its input', site='input-mutated')
+        isf = keep2.dtype.kind == 'f'
+        three = keep2.ndim == 3
+        flat = keep2.reshape(-1, keep2.shape[-1]) if three else keep2.reshape(-1)
+        pxj = np.vectorize(_rat, otypes=[object])(flat).tolist() if isf else flat.astype(np.int64).tolist()
+        reqs.append(('segPlane', {'segs': segs, 'type': typ, 'mfv': mfv, 's': s, 'kind': 'float' if isf else 'int',
+                                  'three': three, 'px': pxj}))
+        pending.append((case2, 'helper', impl2))
 
 
 def _compare(ctx, reqs, pending):
@@ -552,6 +647,13 @@ def _compare(ctx, reqs, pending):
             model = ('ok', None) if 'ok' in ans else ('err', ans['err'])
             if impl[0] != model[0]:
                 ctx.disagree('L0', case, impl, model, 'constructor ok-vs-refused')
+        elif what == 'helper':
+            impl = item[2]
+            model = ('ok', ans['ok']) if 'ok' in ans else ('err', ans['err'])
+            if impl[0] != model[0]:
+                ctx.disagree('L2', case, impl, model, 'helper ok-vs-error')
+            elif impl[0] == 'ok' and impl[1] != model[1]:
+                ctx.disagree('L2', case, impl, model, 'helper value')
         elif what == 'read':
             want, got = item[2], item[3]
             if 'ok' not in ans:
